@@ -358,6 +358,7 @@ static Plan gen_C07(uint64_t seed, Rng &r) {
 static Plan gen_C08(uint64_t seed, Rng &r) {
     Plan p = base_plan("C08", seed, r);
     NodeCfg n = rnd_node(r, {GLUE_BARE, GLUE_LEGACY, GLUE_DARWIN});
+    if (r.chance(0.6)) n.mtu = (uint32_t)r.pickl({576, 1280, 1500, 9000}); // the icon sizes of the attribute generator cluster around multiples of these payload sizes
     p.nodes.push_back(n);
     int mapper = (int)r.below(3);
     int br = rnd_bridge(r, mapper);
@@ -479,7 +480,7 @@ static Plan gen_C11(uint64_t seed, Rng &r) {
     uint16_t gen = rnd_gen(r);
     int64_t xid = rnd_seq(r);
     int nops = (int)r.range(2, 25);
-    int maxst = (int)std::min((int64_t)240, (int64_t)(n.mtu - 36) / 6 - 1);
+    int maxst = (int)std::min((int64_t)240, (int64_t)(n.mtu - 36) / 6 - 1); // fillers + the own address fill the frame exactly at the upper end
     for (int i = 0; i < nops; i++) {
         int x = (int)r.below(12);
         if (x < 7) {
@@ -544,7 +545,7 @@ static Plan gen_C12(uint64_t seed, Rng &r) {
         for (int i = 0; i < nops; i++) {
             int x = (int)r.below(30);
             if (x < 9) p.ops.push_back(mk(OP_A_TICK, 0, {}));
-            else if (x < 16) p.ops.push_back(mk(OP_A_ADV, 0, {r.chance(0.5) ? r.range(0, 150) : (r.chance(0.6) ? r.range(150, 2500) : (r.chance(0.93) ? r.range(2500, 120000) : big_jump(r) * (r.chance(0.5) ? 1 : 1000)))}));
+            else if (x < 16) p.ops.push_back(mk(OP_A_ADV, 0, {r.chance(0.15) ? r.pickl({99, 100, 101, 119, 120, 121, 299, 300, 301, 999, 1000, 1001, 29999, 30000, 30001, 59999, 60000, 60001}) : r.chance(0.5) ? r.range(0, 150) : (r.chance(0.6) ? r.range(150, 2500) : (r.chance(0.93) ? r.range(2500, 120000) : big_jump(r) * (r.chance(0.5) ? 1 : 1000)))}));
             else if (x < 19) p.ops.push_back(mk(OP_A_TADD, 0, {(int64_t)r.below((uint64_t)nkeys), rnd_seq(r)}));
             else if (x < 21) p.ops.push_back(mk(OP_A_TCOMPL, 0, {(int64_t)r.below((uint64_t)nkeys), (int64_t)r.below(2)}));
             else if (x < 22) p.ops.push_back(mk(OP_A_TREM, 0, {(int64_t)r.below((uint64_t)nkeys)}));
